@@ -51,7 +51,7 @@ func c03Alphabet(nkeys int) []l3 {
 	for _, k := range keys {
 		ls = append(ls, l3{Op: "get", Key: k})
 	}
-	ls = append(ls, l3{Op: "commit"}, l3{Op: "push"}, l3{Op: "popc"}, l3{Op: "popd"}, l3{Op: "reopen"})
+	ls = append(ls, l3{Op: "commit"}, l3{Op: "push"}, l3{Op: "popc"}, l3{Op: "popd"}, l3{Op: "reopen"}, l3{Op: "copy"}, l3{Op: "swap"})
 	for _, k := range keys {
 		ls = append(ls, l3{Op: "ins", Key: k, Val: []byte{}})
 	}
@@ -87,9 +87,24 @@ type c03exec struct {
 	stack     []mkvs.OverlayTree
 	ref       []kv.Contents // ref[i] = contents as seen through stack[i]
 	obs       strings.Builder
+	// copyT is an OverlayTree.Copy of the top overlay over the same inner tree; while copyOn is set the
+	// letters operate on the copy.  The two must behave as independent ordered maps.
+	copyT   mkvs.OverlayTree
+	copyRef kv.Contents
+	copyOn  bool
+}
+
+func (e *exec3) dropCopy() {
+	if e.copyT != nil {
+		e.copyT.Close()
+	}
+	e.copyT, e.copyRef, e.copyOn = nil, nil, false
 }
 
 func (e *exec3) top() mkvs.KeyValueTree {
+	if e.copyT != nil && e.copyOn {
+		return e.copyT
+	}
 	if len(e.stack) > 0 {
 		return e.stack[len(e.stack)-1]
 	}
@@ -99,6 +114,9 @@ func (e *exec3) top() mkvs.KeyValueTree {
 type exec3 = c03exec
 
 func (e *exec3) topRef() kv.Contents {
+	if e.copyT != nil && e.copyOn {
+		return e.copyRef
+	}
 	if len(e.ref) > 0 {
 		return e.ref[len(e.ref)-1]
 	}
@@ -198,6 +216,7 @@ func newExec3(cfg c03cfg, ndb dbapi.NodeDB, root node.Root, version uint64) *exe
 }
 
 func (e *exec3) close() {
+	e.dropCopy()
 	for i := len(e.stack) - 1; i >= 0; i-- {
 		e.stack[i].Close()
 	}
@@ -210,9 +229,25 @@ func (e *exec3) step(l l3) (res string) {
 			res = fmt.Sprintf("panic in %s: %v", l, p)
 		}
 	}()
+	switch l.Op {
+	case "commit", "reopen", "push", "popc", "popd":
+		// the copy lives only as long as the overlay it was taken from stays the top and uncommitted
+		e.dropCopy()
+	}
 	t := e.top()
 	ref := e.topRef()
 	switch l.Op {
+	case "copy":
+		if len(e.stack) == 0 || e.copyT != nil {
+			return ""
+		}
+		e.copyT = e.stack[len(e.stack)-1].Copy(nil)
+		e.copyRef = e.ref[len(e.ref)-1].Clone()
+	case "swap":
+		if e.copyT == nil {
+			return ""
+		}
+		e.copyOn = !e.copyOn
 	case "ins":
 		if err := t.Insert(kv.Ctx, l.Key, l.Val); err != nil {
 			return fmt.Sprintf("%s failed: %v", l, err)
@@ -299,6 +334,26 @@ func (e *exec3) step(l l3) (res string) {
 		if r := e.observe(e.top(), e.topRef()); r != "" {
 			return fmt.Sprintf("after %s: %s", l, r)
 		}
+		if r := e.observeOther(); r != "" {
+			return fmt.Sprintf("after %s: %s", l, r)
+		}
+	}
+	return ""
+}
+
+// observeOther observes the member of the (overlay, copy) pair that the letters do not operate on.
+func (e *exec3) observeOther() string {
+	if e.copyT == nil {
+		return ""
+	}
+	if e.copyOn {
+		if r := e.observe(e.stack[len(e.stack)-1], e.ref[len(e.ref)-1]); r != "" {
+			return "overlay whose copy was written to: " + r
+		}
+		return ""
+	}
+	if r := e.observe(e.copyT, e.copyRef); r != "" {
+		return "copy of the overlay that was written to: " + r
 	}
 	return ""
 }
@@ -313,6 +368,27 @@ func (e *exec3) finish() (res string) {
 	}()
 	if r := e.observe(e.top(), e.topRef()); r != "" {
 		return "final: " + r
+	}
+	if r := e.observeOther(); r != "" {
+		return "final: " + r
+	}
+	if e.copyT != nil && e.copyOn {
+		// commit the copy instead of the original: its writes must reach the inner tree as the reference says
+		if _, err := e.copyT.Commit(kv.Ctx); err != nil {
+			return fmt.Sprintf("commit of the overlay copy failed: %v", err)
+		}
+		top := e.copyRef
+		e.dropCopy()
+		e.stack[len(e.stack)-1].Close()
+		e.stack, e.ref = e.stack[:len(e.stack)-1], e.ref[:len(e.ref)-1]
+		if len(e.ref) > 0 {
+			e.ref[len(e.ref)-1] = top
+		} else {
+			e.base = top
+		}
+		if r := e.observe(e.top(), e.topRef()); r != "" {
+			return "after committing the overlay copy: " + r
+		}
 	}
 	for len(e.stack) > 0 {
 		if r := e.step(l3{Op: "popc"}); r != "" {
